@@ -22,6 +22,12 @@ def domain_of(prop):
     if prop in ("C04", "C08", "C12", "C13"):
         from . import store
         return store
+    if prop in ("C06", "C07"):
+        from . import joins
+        return joins
+    if prop == "C16":
+        from . import cs
+        return cs
     raise C.ToolError("no check registered for " + prop)
 
 
@@ -69,7 +75,7 @@ def main(argv):
     known_hits = []
     for r in results:
         for v in r.get("viol", []):
-            if v["p"] != prop:
+            if v["p"] not in (prop, "*"):
                 continue
             v = dict(v, suite=r["suite"])
             kf = [f for f in known if finding_matches(f, prop, v)]
